@@ -139,7 +139,7 @@ theorem vtLoop_eq (w a : Nat) : ∀ fuel i x b, x < 2 ^ i → i + fuel ≤ w →
       unfold shlVartime; simp [hi]
     have e : vtLoop w a (n + 1) i x b =
         match shlVartime w (b % 2) i with
-        | none => none
+        | none => vtLoop w a n (i + 1) (x ||| 0) ((if b % 2 ≠ 0 then wsubW w b a else b) / 2)
         | some sh => vtLoop w a n (i + 1) (x ||| sh) ((if b % 2 ≠ 0 then wsubW w b a else b) / 2) := rfl
     rw [e, hsh]
     simp only
@@ -242,5 +242,115 @@ theorem ref_spec {w a k : Nat} (hk : k ≤ w) (ha : a % 2 = 1) :
     have h3 : a * (refLoop w a k 0 0 1).1 + 2 ^ k * (refLoop w a k 0 0 1).2 ≡ a * (refLoop w a k 0 0 1).1 [MOD 2 ^ k] := by
       unfold Nat.ModEq; simp
     exact h3.symm.trans h2
+
+/-! ### beyond `k ≤ BITS`: rounds `i ≥ BITS` contribute nothing (since /repo 8dd1192 also in
+    `inv_mod2k_vartime`) -/
+
+theorem vtLoop_tail (w a : Nat) : ∀ fuel i x b, w ≤ i → vtLoop w a fuel i x b = some x := by
+  intro fuel
+  induction fuel with
+  | zero => intros; rfl
+  | succ n ih =>
+    intro i x b hi
+    have hsh : shlVartime w (b % 2) i = none := by
+      unfold shlVartime; rw [if_neg (by omega)]
+    have e : vtLoop w a (n + 1) i x b =
+        match shlVartime w (b % 2) i with
+        | none => vtLoop w a n (i + 1) (x ||| 0) ((if b % 2 ≠ 0 then wsubW w b a else b) / 2)
+        | some sh => vtLoop w a n (i + 1) (x ||| sh) ((if b % 2 ≠ 0 then wsubW w b a else b) / 2) := rfl
+    rw [e, hsh]
+    simp only [Nat.or_zero]
+    exact ih _ _ _ (by omega)
+
+theorem vtLoopBoxed_tail (w a : Nat) : ∀ fuel i x b, w ≤ i → vtLoopBoxed w a fuel i x b = x := by
+  intro fuel
+  induction fuel with
+  | zero => intros; rfl
+  | succ n ih =>
+    intro i x b hi
+    have e : vtLoopBoxed w a (n + 1) i x b =
+        vtLoopBoxed w a n (i + 1) (if i < w then setBit x i (decide (b % 2 ≠ 0)) else x)
+          ((if b % 2 ≠ 0 then wsubW w b a else b) / 2) := rfl
+    rw [e, if_neg (by omega)]
+    exact ih _ _ _ (by omega)
+
+/-- splitting the fuel: the first `f1` rounds, then the rest from the reached state -/
+theorem vtLoop_split (w a : Nat) : ∀ f1 f2 i x b, x < 2 ^ i → i + f1 ≤ w →
+    vtLoop w a (f1 + f2) i x b =
+      vtLoop w a f2 (i + f1) (refLoop w a f1 i x b).1 (refLoop w a f1 i x b).2 := by
+  intro f1
+  induction f1 with
+  | zero => intro f2 i x b _ _; simp [refLoop]
+  | succ n ih =>
+    intro f2 i x b hx hk
+    have hi : i < w := by omega
+    have hsh : shlVartime w (b % 2) i = some ((b % 2 * 2 ^ i) % 2 ^ w) := by
+      unfold shlVartime; simp [hi]
+    have efuel : n + 1 + f2 = (n + f2) + 1 := by omega
+    rw [efuel]
+    have e : vtLoop w a ((n + f2) + 1) i x b =
+        match shlVartime w (b % 2) i with
+        | none => vtLoop w a (n + f2) (i + 1) (x ||| 0) ((if b % 2 ≠ 0 then wsubW w b a else b) / 2)
+        | some sh => vtLoop w a (n + f2) (i + 1) (x ||| sh) ((if b % 2 ≠ 0 then wsubW w b a else b) / 2) := rfl
+    rw [e, hsh]
+    simp only
+    have hpow : 2 ^ i < 2 ^ w := Nat.pow_lt_pow_right (by omega) hi
+    have hx' : x ||| (b % 2 * 2 ^ i) % 2 ^ w = stepX x i b := by
+      unfold stepX
+      rcases Nat.mod_two_eq_zero_or_one b with h0 | h1
+      · simp [h0]
+      · have : (1 * 2 ^ i) % 2 ^ w = 2 ^ i := by rw [Nat.one_mul]; exact Nat.mod_eq_of_lt hpow
+        rw [h1, this]
+        have := setBit_of_lt hx true
+        unfold setBit at this
+        simpa using this
+    rw [hx']
+    have := ih f2 (i + 1) (stepX x i b) (stepB w a b) (stepX_lt hx) (by omega)
+    have e2 : i + 1 + n = i + (n + 1) := by omega
+    rw [e2] at this
+    exact this
+
+theorem vtLoopBoxed_split (w a : Nat) : ∀ f1 f2 i x b, x < 2 ^ i → i + f1 ≤ w →
+    vtLoopBoxed w a (f1 + f2) i x b =
+      vtLoopBoxed w a f2 (i + f1) (refLoop w a f1 i x b).1 (refLoop w a f1 i x b).2 := by
+  intro f1
+  induction f1 with
+  | zero => intro f2 i x b _ _; simp [refLoop]
+  | succ n ih =>
+    intro f2 i x b hx hk
+    have hi : i < w := by omega
+    have efuel : n + 1 + f2 = (n + f2) + 1 := by omega
+    rw [efuel]
+    have e : vtLoopBoxed w a ((n + f2) + 1) i x b =
+        vtLoopBoxed w a (n + f2) (i + 1) (if i < w then setBit x i (decide (b % 2 ≠ 0)) else x)
+          ((if b % 2 ≠ 0 then wsubW w b a else b) / 2) := rfl
+    rw [e, if_pos hi, setBit_of_lt hx]
+    have hxe : (x + if (decide (b % 2 ≠ 0)) = true then 2 ^ i else 0) = stepX x i b := by
+      unfold stepX; simp
+    rw [hxe]
+    have := ih f2 (i + 1) (stepX x i b) (stepB w a b) (stepX_lt hx) (by omega)
+    have e2 : i + 1 + n = i + (n + 1) := by omega
+    rw [e2] at this
+    exact this
+
+/-- for `k ≥ BITS` all forms return the reference recursion run for `BITS` rounds -/
+theorem ct_eq_ref_beyond {w a k : Nat} (hk : w ≤ k) : (invMod2k w a k).1 = (refLoop w a w 0 0 1).1 := by
+  unfold invMod2k
+  have := ctLoop_eq w a k w 0 0 1 (by simp)
+  simp only [this]
+  have e : min (0 + w) k - min 0 k = w := by omega
+  rw [e]
+
+theorem vt_eq_ref_beyond {w a k : Nat} (hk : w ≤ k) :
+    vtLoop w a k 0 0 1 = some (refLoop w a w 0 0 1).1 := by
+  obtain ⟨d, rfl⟩ : ∃ d, k = w + d := ⟨k - w, by omega⟩
+  rw [vtLoop_split w a w d 0 0 1 (by simp) (by omega)]
+  exact vtLoop_tail w a d _ _ _ (by omega)
+
+theorem vtBoxed_eq_ref_beyond {w a k : Nat} (hk : w ≤ k) :
+    vtLoopBoxed w a k 0 0 1 = (refLoop w a w 0 0 1).1 := by
+  obtain ⟨d, rfl⟩ : ∃ d, k = w + d := ⟨k - w, by omega⟩
+  rw [vtLoopBoxed_split w a w d 0 0 1 (by simp) (by omega)]
+  exact vtLoopBoxed_tail w a d _ _ _ (by omega)
 
 end CB.InvMod2k
